@@ -9,7 +9,7 @@ MODELRUN = os.path.join(VERIF, 'ocaml', 'modelrun')
 PY = '/venv/bin/python'
 RECORDINGS = os.path.join(REPO, 'tests', 'data', 'random_replays')
 
-LEVELS = {'C09': 'other', 'C14': 'other', 'C15': 'other', 'C18': 'other', 'C19': 'other'}
+LEVELS = {'C14': 'other', 'C15': 'other', 'C18': 'other', 'C19': 'other'}
 
 FORBIDDEN = re.compile(r'\b(Admitted|admit|Axiom|Parameter|Conjecture|Unset Guard|bypass_check|Admit Obligations|type-in-type|impredicative-set)\b')
 
